@@ -137,7 +137,8 @@ Definition unary_result (on_special : N -> bytes -> outcome) (on_eof : outcome) 
     | inl m =>
       match single r2 with
       | inr Clean => OMsg m
-      | _ => OErr code_unknown                  (* a second message, or a failure after the first *)
+      | inr (Failed c) => OErr c                (* a failure after the first message keeps its code *)
+      | inl _ => OErr code_unknown              (* a second message *)
       end
     end
   | _ => OErr code_unknown
